@@ -319,6 +319,91 @@ theorem lookup_hit_miss (t1 : List (Nat × α)) (t2 : List ((Nat × Nat) × α))
   ⟨fun k v h => lookup1_of_mem t1 k v h1 h, fun k h => lookup1_of_not_mem t1 k h,
     fun k v h => lookup2_of_mem t2 k v h2 h, fun k h => lookup2_of_not_mem t2 k h⟩
 
+/-! ### 5. Linear in the weights (sum aggregation) -/
+
+/-- C07: under sum aggregation the pre-floor traversal value is a linear function of the weight vector -/
+theorem linear_in_weights (m : CostModel α) (hs : m.agg = .sum) (w1 w2 : List α) (hl : w1.length = w2.length)
+    (a b : α) (e : Nat) (prev next : List α) (s1 s2 : α)
+    (h1 : ({ m with weights := w1 }).traversalTotal e prev next = some s1)
+    (h2 : ({ m with weights := w2 }).traversalTotal e prev next = some s2) :
+    ({ m with weights := List.zipWith (fun x y => a * x + b * y) w1 w2 }).traversalTotal e prev next
+      = some (a * s1 + b * s2) := by
+  have r1 : CostModel.InRange { m with weights := w1 } prev next :=
+    (CostModel.traversalTotal_isSome_iff _ e prev next).mp (by simp [h1])
+  have r2 : CostModel.InRange { m with weights := w2 } prev next :=
+    (CostModel.traversalTotal_isSome_iff _ e prev next).mp (by simp [h2])
+  have r3 : CostModel.InRange { m with weights := List.zipWith (fun x y => a * x + b * y) w1 w2 } prev next := by
+    intro i hi
+    have := r1 i hi
+    refine ⟨this.1, this.2.1, this.2.2.1, ?_, this.2.2.2.2⟩
+    have h4 : i < w1.length := this.2.2.2.1
+    simp only [List.length_zipWith, ← hl, min_self]
+    exact h4
+  rw [m.traversalTotal_sum_weights hs _ e prev next r1] at h1
+  rw [m.traversalTotal_sum_weights hs _ e prev next r2] at h2
+  rw [m.traversalTotal_sum_weights hs _ e prev next r3]
+  simp only [Option.some.injEq] at h1 h2 ⊢
+  have hw : ∀ i ∈ m.indices, (List.zipWith (fun x y => a * x + b * y) w1 w2).getD i 0
+      = a * w1.getD i 0 + b * w2.getD i 0 :=
+    fun i hi => getD_zipWith_linear w1 w2 a b i (r1 i hi).2.2.2.1 (r2 i hi).2.2.2.1
+  rw [← h1, ← h2, sum_terms_linear m.indices _ _ _ _ a b hw, sum_terms_linear m.indices _ _ _ _ a b hw]
+  ring
+
+/-- the same for the access value -/
+theorem linear_in_weights_access (m : CostModel α) (hs : m.agg = .sum) (w1 w2 : List α) (hl : w1.length = w2.length)
+    (a b : α) (pe ne : Nat) (prev next : List α) (s1 s2 : α)
+    (h1 : ({ m with weights := w1 }).accessTotal pe ne prev next = some s1)
+    (h2 : ({ m with weights := w2 }).accessTotal pe ne prev next = some s2) :
+    ({ m with weights := List.zipWith (fun x y => a * x + b * y) w1 w2 }).accessTotal pe ne prev next
+      = some (a * s1 + b * s2) := by
+  have r1 : CostModel.InRangeV { m with weights := w1 } prev next :=
+    (CostModel.accessTotal_isSome_iff _ pe ne prev next).mp (by simp [h1])
+  have r2 : CostModel.InRangeV { m with weights := w2 } prev next :=
+    (CostModel.accessTotal_isSome_iff _ pe ne prev next).mp (by simp [h2])
+  have r3 : CostModel.InRangeV { m with weights := List.zipWith (fun x y => a * x + b * y) w1 w2 } prev next := by
+    intro i hi
+    have := r1 i hi
+    refine ⟨this.1, this.2.1, this.2.2.1, ?_⟩
+    have h4 : i < w1.length := this.2.2.2
+    simp only [List.length_zipWith, ← hl, min_self]
+    exact h4
+  rw [m.accessTotal_sum_weights hs _ pe ne prev next r1] at h1
+  rw [m.accessTotal_sum_weights hs _ pe ne prev next r2] at h2
+  rw [m.accessTotal_sum_weights hs _ pe ne prev next r3]
+  simp only [Option.some.injEq] at h1 h2 ⊢
+  have hw : ∀ i ∈ m.indices, (List.zipWith (fun x y => a * x + b * y) w1 w2).getD i 0
+      = a * w1.getD i 0 + b * w2.getD i 0 :=
+    fun i hi => getD_zipWith_linear w1 w2 a b i (r1 i hi).2.2.2 (r2 i hi).2.2.2
+  rw [← h1, ← h2, sum_terms_linear m.indices _ _ _ _ a b hw, sum_terms_linear m.indices _ _ _ _ a b hw]
+  ring
+
+/-- the same for the (pre-clip) estimate -/
+theorem linear_in_weights_estimate (m : CostModel α) (hs : m.agg = .sum) (w1 w2 : List α) (hl : w1.length = w2.length)
+    (a b : α) (src dst : List α) (s1 s2 : α)
+    (h1 : ({ m with weights := w1 }).vehicleCosts src dst = some s1)
+    (h2 : ({ m with weights := w2 }).vehicleCosts src dst = some s2) :
+    ({ m with weights := List.zipWith (fun x y => a * x + b * y) w1 w2 }).vehicleCosts src dst
+      = some (a * s1 + b * s2) := by
+  have r1 : CostModel.InRangeV { m with weights := w1 } src dst :=
+    (CostModel.vehicleCosts_isSome_iff _ src dst).mp (by simp [h1])
+  have r2 : CostModel.InRangeV { m with weights := w2 } src dst :=
+    (CostModel.vehicleCosts_isSome_iff _ src dst).mp (by simp [h2])
+  have r3 : CostModel.InRangeV { m with weights := List.zipWith (fun x y => a * x + b * y) w1 w2 } src dst := by
+    intro i hi
+    have := r1 i hi
+    refine ⟨this.1, this.2.1, this.2.2.1, ?_⟩
+    have h4 : i < w1.length := this.2.2.2
+    simp only [List.length_zipWith, ← hl, min_self]
+    exact h4
+  rw [m.vehicleCosts_sum_weights hs _ src dst r1] at h1
+  rw [m.vehicleCosts_sum_weights hs _ src dst r2] at h2
+  rw [m.vehicleCosts_sum_weights hs _ src dst r3]
+  simp only [Option.some.injEq] at h1 h2 ⊢
+  have hw : ∀ i ∈ m.indices, (List.zipWith (fun x y => a * x + b * y) w1 w2).getD i 0
+      = a * w1.getD i 0 + b * w2.getD i 0 :=
+    fun i hi => getD_zipWith_linear w1 w2 a b i (r1 i hi).2.2.2 (r2 i hi).2.2.2
+  rw [← h1, ← h2, sum_terms_linear m.indices _ _ _ _ a b hw]
+
 end
 
 end C07
